@@ -2,7 +2,8 @@
 
 Proof  : lean/CentrifugeVerif/Props/C28.lean over Model/ControlUnsub.lean (hub calls = regenerated control codec).
 Tie    : the two-node cluster harness of C27 (local and control-message path), random clusters / subscription sets /
-         targeting options; the Lean driver runs the same lines on the model (current and fixed mode).
+         targeting options; the Lean driver runs the same lines on the model (`now` = Mode.fixed = the code since
+         /repo commit 770c28ff, and `old` = Mode.preFix, to recognise a regression to the pre-fix behaviour).
 Oracle : the documented behaviour evaluated on the implementation's own observations (Python, independent of the
          model): after an unsubscribe with an empty channel every addressed connection has no channel left, each
          channel it had got callback + push (+ presence removal / leave when enabled), nothing else changed.
@@ -299,7 +300,7 @@ def run(ctx):
     if ctx.last_go_crash:
         ctx.notes.append("harness process: " + str(ctx.last_go_crash)[-600:])
     setup, herr, nviol, ncorr = [], 0, 0, 0
-    modes = {"cur": 0, "fix": 0, "both": 0}
+    modes = {"now": 0, "old": 0, "both": 0}
     seen_sig = set()
     for i, op in enumerate(ops):
         if not op.startswith("call"):
@@ -349,23 +350,21 @@ def run(ctx):
                 ctx.violation("property", "Node.Unsubscribe with an empty channel: " + (m2 or msg),
                               signature=signature(s2, c2, d2, m2 or msg, p2 or path),
                               replay={"ops": s2 + [c2], "impl": d2, "original_ops": setup + [op]})
-        # correspondence with the model (current or fixed mode)
-        if m.startswith("cur L "):
-            cur, fix = m[len("cur "):].split(" fix ")
+        # correspondence with the model of the code as it is (`now`); `old` = pre-fix behaviour, for diagnosis only
+        if m.startswith("now L "):
+            now, oldm = m[len("now "):].split(" old ")
             mine = f"L {canon(d['L'])} R {canon(d['R'])}"
-            is_cur, is_fix = mine == cur, mine == fix
-            if is_cur and is_fix:
-                modes["both"] += 1
-            elif is_cur:
-                modes["cur"] += 1
-            elif is_fix:
-                modes["fix"] += 1
+            if mine == now:
+                modes["now" if now != oldm else "both"] += 1
             else:
                 ncorr += 1
+                if mine == oldm:
+                    modes["old"] += 1
                 if ncorr <= 3:
-                    ctx.violation("correspondence", "implementation matches neither the current nor the fixed model",
-                                  signature={"kind": "diff"},
-                                  replay={"ops": setup + [op], "impl": mine, "model_current": cur, "model_fixed": fix},
+                    ctx.violation("correspondence", "implementation differs from the model of the current code"
+                                  + (" (it behaves like the code before fix 770c28ff)" if mine == oldm else ""),
+                                  signature={"kind": "diff", "prefix_behaviour": mine == oldm},
+                                  replay={"ops": setup + [op], "impl": mine, "model": now, "model_prefix": oldm},
                                   no_input=(nviol == 0))
         elif model:
             ctx.violation("correspondence", f"driver could not interpret the call: {m}", signature={"kind": "driver", "out": m[:40]},
@@ -373,9 +372,6 @@ def run(ctx):
     ctx.traces_validated = ctx.evaluations
     ctx.extra["model_mode_matches"] = modes
     ctx.extra["disagreements"] = ncorr
-    if modes["cur"] and modes["fix"]:
-        ctx.violation("correspondence", "implementation follows the current model on some inputs and the fixed model on others",
-                      signature={"kind": "mixed-modes"}, replay={"modes": modes}, no_input=True)
     if herr > max(5, ctx.evaluations // 10):
         raise RuntimeError(f"too many harness errors ({herr})")
     if not proofs_ok and not ctx.violations:
